@@ -21,7 +21,7 @@ def plans(quick):
             # a task reading from the namespace mounted below it; the inner pipeline is a configuration of its own
             dict(family='levels',
                  checks=[dict(steps=4, slots=2, rcs=['v1', 'v2'])],
-                 gen=dict(steps=4, slots=1, lists=[['v2'], ['v3'], ['v1', 'v2']]), cover_limit=120, walks=40,
+                 gen=dict(steps=4, slots=1, lists=[['v2'], ['v3'], ['v1', 'v2'], ['v4'], ['s12'], ['s21']]), cover_limit=160, walks=50,
                  sim=dict(num=60, depth=12)),
             # ~pattern inputs and optional inputs that some configurations provide and others do not
             dict(family='wiring',
